@@ -255,7 +255,7 @@ class MitmAir(AIR.Air):
         n = self.sent[p.name]
         self.sent[p.name] += 1
         m = self.mitm
-        if m is not None and data is not None and p.name == m[0] and n == m[1]:
+        if m is not None and data is not None and p.name == m[0] and m[1] <= n < m[1] + (m[3] if len(m) > 3 else 1):
             new = bytes(m[2](bytes(data)))
             self.injected.append((p.name, n, bytes(data).hex()[:60], new.hex()[:60]))
             data = bytearray(new)
@@ -358,7 +358,7 @@ def run_mitm(cfg):
     threading.excepthook = hook
     try:
         if cfg["layer"] == "air":
-            air.mitm = (cfg["src"], cfg["at"], frame_mutator(cfg["cls"], cfg["arg"], rnd))
+            air.mitm = (cfg["src"], cfg["at"], frame_mutator(cfg["cls"], cfg["arg"], rnd), cfg.get("burst", 1))
         state = {}
 
         class Server(nfc.snep.SnepServer):
@@ -390,7 +390,7 @@ def run_mitm(cfg):
                                 if r is not None and (bytes(r[:2]) != b"\x00\x00" or cfg.get("symm")):
                                     k = cnt[0]
                                     cnt[0] += 1
-                                    if k == cfg["at"]:
+                                    if cfg["at"] <= k < cfg["at"] + cfg.get("burst", 1):
                                         new = mut(bytes(r))
                                         air.injected.append((side, k, bytes(r).hex()[:60], new.hex()[:60]))
                                         return bytearray(new)
@@ -559,6 +559,18 @@ def gen_b(tier, seed):
                 n += 1
                 out.append(dict(id="llcp%d" % n, kind="mitm", layer="llcp", src=src, at=at, cls=cls, arg=0,
                                 seed=seed * 37 + n, server=rnd.choice("IT"), miu=rnd.choice([128, 248, 2175])))
+    # bursts: several consecutive frames / PDUs replaced (histories, not single inputs); burst 1000 = "from here on only garbage"
+    for src in ("I", "T"):
+        for at in ((0, 2, 5) if quick else (0, 1, 2, 3, 4, 5, 6, 8, 11, 15)):
+            for burst in ((2, 1000) if quick else (2, 3, 5, 1000)):
+                for cls, arg in (("byte", 3), ("byte", 4), ("truncfix", 1), ("random", 0), ("len", 1), ("extend", 1), ("short", 3)):
+                    n += 1
+                    out.append(dict(id="airb%d" % n, kind="mitm", layer="air", src=src, at=at, cls=cls, arg=arg, burst=burst,
+                                    seed=seed * 41 + n, server=rnd.choice("IT")))
+                for cls in (LLCP_GARBAGE if not quick else LLCP_GARBAGE[:6]):
+                    n += 1
+                    out.append(dict(id="llcpb%d" % n, kind="mitm", layer="llcp", src=src, at=at, cls=cls, arg=0, burst=burst,
+                                    seed=seed * 43 + n, server=rnd.choice("IT"), miu=rnd.choice([128, 248, 2175])))
     cmds = valid_tt3_cmds()
     muts = list(mutations(cmds, rnd, 200 if quick else 3000))
     rnd.shuffle(muts)
@@ -570,7 +582,7 @@ def gen_b(tier, seed):
             break
     if quick:
         rnd.shuffle(out)
-        keep = [c for c in out if c["kind"] == "card"] + [c for c in out if c["kind"] == "mitm"][:700]
+        keep = [c for c in out if c["kind"] == "card"] + [c for c in out if c["kind"] == "mitm"][:800]
         out = keep
     return out
 
@@ -601,6 +613,11 @@ def run(tier, seed):
     selftest = [dict(id="selftest-indexerror", ev=[dict(a="Case", entry="pdu.decode", cls="raise", exc="IndexError", x="-", keep=False, v="-")])]
     # ---- part B
     cfgs = gen_b(tier, seed)
+    if not quick:            # a second and third draw of the random choices (byte values, server side, MIU)
+        for k in (1, 2):
+            for c in gen_b(tier, seed + 1000 * k):
+                if c["kind"] == "mitm" and c["cls"] not in ("zeros", "max", "trunc", "truncfix", "short"):
+                    cfgs.append(dict(c, id="s%d-%s" % (k, c["id"])))
     runs = []
     with mp.Pool(12, maxtasksperchild=40) as pool:
         for st, payload, cfg in pool.imap_unordered(_work, cfgs, chunksize=4):
@@ -630,7 +647,7 @@ def run(tier, seed):
         cfg = p["cfg"]
         if p["injected"] or cfg["kind"] == "card":
             ninj += 1
-            nontrivial.add(("B", cfg["kind"], cfg.get("layer"), cfg.get("cls"), cfg.get("src"), min(cfg.get("at", 0), 12)))
+            nontrivial.add(("B", cfg["kind"], cfg.get("layer"), cfg.get("cls"), cfg.get("src"), min(cfg.get("at", 0), 12), cfg.get("burst", 1)))
         if v[0] == "ACCEPT":
             continue
         line, act, why = v[1], v[2], v[3]
